@@ -260,7 +260,7 @@ class Analyzer(Interp):
                 s.lens[k] = self.fresh_len(s)
         # orderings between a merged value and the other integer values, when they hold on both sides
         merged = [k for k, v in s.env.items() if isinstance(v, Lin) and isinstance(a.env.get(k), Lin) and a.env[k] != b.env.get(k)]
-        if merged and len(merged) <= 12:
+        if merged and len(merged) <= 64:
             from .lin import _cone
             others = [k for k, v in s.env.items() if isinstance(v, Lin) and isinstance(a.env.get(k), Lin) and isinstance(b.env.get(k), Lin)]
             for k in merged:
